@@ -36,11 +36,11 @@ type mutant struct {
 }
 
 type mutantResult struct {
-	Name    string   `json:"name"`
-	Status  string   `json:"status"` // killed | survived | skipped | error
-	By      []string `json:"by,omitempty"`
-	Detail  string   `json:"detail,omitempty"`
-	Expect  []string `json:"expect,omitempty"`
+	Name   string   `json:"name"`
+	Status string   `json:"status"` // killed | survived | skipped | error
+	By     []string `json:"by,omitempty"`
+	Detail string   `json:"detail,omitempty"`
+	Expect []string `json:"expect,omitempty"`
 }
 
 func main() {
